@@ -185,6 +185,8 @@ FAILERS = {
     "undefined_solution": "USE solution 99\nREACTION 1\n NaCl 1\n 1 mmol\nEND\n",
     # a failing *load*: a database text that defines extra phases, a species and a rate and then stops on a syntax error (see _script)
     "bad_database_string": None,
+    # dies while the input is still being read, after requests (COPY, DELETE, DUMP, RUN_CELLS) have been queued
+    "queued_then_missing_include": "COPY solution 1 10-12\nDELETE\n -solution 2\nDUMP\n -solution 1\nINCLUDE$ /nonexistent_dir/nofile.pqi\nEND\n",
 }
 BAD_DB_TAIL = ("PHASES\nSeedite\n NaCl = Na+ + Cl-\n log_k 1.3\nSOLUTION_SPECIES\nNa+ + Cl- = NaCl\n log_k -0.7\nRATES\n seedrate\n-start\n10 SAVE 1e-7*TIME\n-end\n"
                "PHASES\nSeedbad\n KCl = K+ + Cl-\n log_k not_a_number\n")
@@ -303,6 +305,7 @@ def _script(ctx, case, with_history):
     # the last probe defines selected output for the user numbers the history may have switched on or off (2 and 5) without touching their switches:
     # what their strings and files receive is part of the fresh-state behaviour
     probes = list(PROBES) + (PROBES_PHREEQC if case["target"] in ("phreeqc.dat", "wateq4f.dat", "Amm.dat") else []) + [
+        ("copy-request", "SOLUTION 1\n Na 1\n Cl 1\nSOLUTION 2\n K 1\n Cl 1\nEND\nCOPY solution 1 5\nEND\nDUMP\n -solution 1-20\nEND\n"),
         ("other-user-numbers", "SELECTED_OUTPUT 2\n -reset false\n -totals Na\nSELECTED_OUTPUT 5\n -reset false\n -pH true\nSOLUTION 1\n Na 1\n Cl 1\nEND\n")]
     for name, text in probes:
         s.raw("tag probe:" + name)
